@@ -2065,3 +2065,302 @@ def alias_program(cfg=None):
         g = GA(draw, cfg)
         return g.scenario()
     return strat()
+
+
+# ======================================================================================
+# strings profile (C09): equal contents reached by different creation routes
+# ======================================================================================
+STR_BASES = ["abc", "key", "push", "Box", "12", "1.5", "héλ", "a b", "x", "len", "init", "-3", "true", "nil",
+             "ab,cd", "Error", "message", "0", "日本語", "ß"]
+
+
+def _numlike(s):
+    from .values import fmt_num
+    try:
+        v = float(s)
+    except ValueError:
+        return None
+    if v != v or v in (float("inf"), float("-inf")) or s.strip() != s or "_" in s:
+        return None
+    return v if fmt_num(v) == s else None
+
+
+class GS(G):
+    """String values with chosen contents (a base and its near misses) built by many routes -- literal,
+    concatenation, interpolation, slice, split, character iteration, reduce over pieces, number / bool / nil
+    formatting, case mapping, trim, class and function names, another module -- stored, dropped, recreated,
+    with garbage producing loops in between, and observed by ==, !=, ordering, map set / get / has / remove,
+    list / tuple has / index."""
+
+    def __init__(self, draw, cfg=None):
+        G.__init__(self, draw, cfg or Cfg(max_depth=2, p_confuse=0))
+        self.tmp = 0
+        self.mod_exports = []  # (name, kind, expr) for the second module
+        self.with_module = False
+        self.in_module = False
+
+    def pool(self):
+        base = self.pick(STR_BASES)
+        near = {base + self.pick(["d", " ", "0", "é"]), base[::-1], ""}
+        if len(base) > 1:
+            near.add(base[:-1])
+            near.add(base[1:])
+        if base.isascii():
+            near.add(base.upper())
+            near.add(base.lower())
+        near.discard(base)
+        near = sorted(near)
+        k = min(len(near), self.i(1, 3))
+        start = self.i(0, len(near) - 1)
+        chosen = [near[(start + j) % len(near)] for j in range(k)]
+        return [base] + chosen
+
+    # ---- routes ----------------------------------------------------------------
+    def piece(self, t, depth):
+        if depth >= 2 or self.chance(60):
+            return ("str", t)
+        return self.route(t, depth + 1)[1]
+
+    def routes_for(self, t, depth):
+        r = ["lit", "concat", "interp", "slice", "split", "reduce", "trimmed"]
+        if len(t) >= 1:
+            r.append("chars")
+        if len(t) == 1:
+            r.append("index")
+        if _numlike(t) is not None:
+            r += ["numfmt", "numfmt", "numinterp"]
+        if t in ("true", "nil"):
+            r += ["kwfmt", "kwfmt"]
+        if t.isascii() and any(c.isalpha() for c in t) and (t == t.lower() or t == t.upper()):
+            r.append("case")
+        if t in ("Box", "key", "Error") and not self.in_module:
+            r += ["name", "name"]
+        if self.with_module and depth == 0:
+            r += ["module", "module"]
+        return r
+
+    def route(self, t, depth=0, avoid_lit=False):
+        """-> (route name, expression whose value is the string t)"""
+        rs = self.routes_for(t, depth)
+        if avoid_lit:
+            rs = [x for x in rs if x != "lit"]
+        kind = self.pick(rs)
+        n = len(t)
+        if kind == "lit":
+            return kind, ("str", t)
+        if kind == "concat":
+            k = self.i(0, n)
+            if self.chance(30) and n >= 2:
+                j = self.i(k, n)
+                return kind, ("bin", "+", ("bin", "+", self.piece(t[:k], depth), self.piece(t[k:j], depth)), self.piece(t[j:], depth))
+            return kind, ("bin", "+", self.piece(t[:k], depth), self.piece(t[k:], depth))
+        if kind == "interp":
+            k = self.i(0, n)
+            j = self.i(k, n)
+            parts = []
+            if t[:k]:
+                parts.append(t[:k])
+            parts.append(self.piece(t[k:j], depth + 1))
+            if t[j:]:
+                parts.append(t[j:])
+            return kind, ("interp", parts)
+        if kind == "slice":
+            p1 = self.pick(["", "x", "zz", "é", "日"])
+            p2 = self.pick(["", "y", "ww", "λ"])
+            args = [("num", float(len(p1))), ("num", float(len(p1) + n))]
+            if p2 == "" and self.chance(50):
+                args = args[:1]
+            return kind, ("call", ("prop", ("str", p1 + t + p2), "slice"), args)
+        if kind == "split":
+            seps = [s for s in [",", ";", "--", "é", " "] if s not in t]
+            sep = self.pick(seps)
+            a = self.pick(["", "q", "left"])
+            b = self.pick(["", "r", "right"])
+            a = a if sep not in a else ""
+            whole = a + sep + t + sep + b
+            return kind, ("index", ("call", ("prop", ("call", ("prop", ("str", whole), "split"), [("str", sep)]), "list"), []),
+                          ("num", 1.0))
+        if kind == "reduce":
+            k = self.i(0, n)
+            pieces = [("str", t[:k]), ("str", t[k:])]
+            return kind, ("call", ("prop", ("call", ("prop", ("list", pieces), "iter"), []), "reduce"),
+                          [("str", ""), L_("j", ["a", "c"], ("bin", "+", ("var", "a"), ("var", "c")))])
+        if kind == "chars":
+            pad = self.pick(["", "p", "é"])
+            src = ("str", pad + t)
+            it = ("call", ("prop", src, "iter"), [])
+            if pad:
+                it = ("call", ("prop", it, "skip"), [("num", float(len(pad)))])
+            return kind, ("call", ("prop", it, "reduce"),
+                          [("str", ""), L_("j", ["a", "c"], ("bin", "+", ("var", "a"), ("var", "c")))])
+        if kind == "trimmed":
+            if t.strip() != t or t == "":
+                return "concat", ("bin", "+", ("str", ""), ("str", t))
+            m = self.pick(["trim", "trimStart", "trimEnd"])
+            padded = {"trim": "  " + t + " ", "trimStart": " \t" + t, "trimEnd": t + "  "}[m]
+            return kind, ("call", ("prop", ("str", padded), m), [])
+        if kind == "index":
+            p1 = self.pick(["", "x", "é日"])
+            return kind, ("index", ("str", p1 + t + "z"), ("num", float(len(p1))))
+        if kind == "numfmt":
+            v = _numlike(t)
+            if v < 0 or (v == 0 and t.startswith("-")):
+                e = ("group", ("un", "-", ("num", -v)))
+            elif self.chance(30) and v == int(v) and v >= 2:
+                e = ("group", ("bin", "+", ("num", v - 1), ("num", 1.0)))
+            else:
+                e = ("num", v)
+            return kind, ("call", ("prop", e, "str"), [])
+        if kind == "numinterp":
+            v = _numlike(t)
+            e = ("un", "-", ("num", -v)) if v < 0 else ("num", v)
+            return kind, ("interp", [e])
+        if kind == "kwfmt":
+            e = ("true",) if t == "true" else ("nil",)
+            if self.chance(50):
+                return kind, ("interp", [e])
+            return kind, ("call", ("prop", e, "str"), [])
+        if kind == "case":
+            if t == t.lower():
+                return kind, ("call", ("prop", ("str", t.upper()), "downCase"), [])
+            return kind, ("call", ("prop", ("str", t.lower()), "upCase"), [])
+        if kind == "name":
+            if t == "Box":
+                if self.chance(50):
+                    return kind, ("call", ("prop", ("var", "Box"), "name"), [])
+                return kind, ("call", ("prop", ("call", ("prop", ("call", ("var", "Box"), [("num", 0.0)]), "cls"), []), "name"), [])
+            if t == "Error":
+                return kind, ("call", ("prop", ("var", "Error"), "name"), [])
+            return kind, ("call", ("prop", ("var", "key"), "name"), [])
+        if kind == "module":
+            self.in_module = True
+            _, inner = self.route(t, 1)
+            self.in_module = False
+            name = "e%d" % len(self.mod_exports)
+            if self.chance(50):
+                self.mod_exports.append((name, "let", inner))
+                return kind, ("prop", ("var", "strs"), name)
+            self.mod_exports.append((name, "fn", inner))
+            return kind, ("call", ("prop", ("var", "strs"), name), [])
+        raise AssertionError(kind)
+
+    def wrap(self, expr):
+        return ("try", [("print", expr)], [("e", None, [("print", ("call", ("prop", ("call", ("prop", ("var", "e"), "cls"), []), "name"), []))])])
+
+    def scenario(self, allow_module=True):
+        self.with_module = allow_module and self.chance(35)
+        in_fn = self.chance(60)
+        pool = self.pool()
+        # contents that never appear as a whole literal can really be evicted from the intern table
+        no_lit = set(t for t in pool if self.chance(50))
+        pre = [("class", "Box", None, ("init", ["v"], [("expr", ("assign", ("prop", ("self",), "v"), ("var", "v")))]), [], []),
+               ("fn", "key", [], [])]
+        if self.with_module:
+            pre.append(("import", ["self", "strs"], ("whole", None)))
+        body = [("let", "m", ("map", [])), ("let", "held", ("list", [])), ("let", "n", ("num", 0.0))]
+        live = {}  # var -> content (None once dropped)
+        routes_used = set()
+        counter = [0]
+
+        def content():
+            return pool[0] if self.chance(55) else self.pick(pool)
+
+        def make(t):
+            r, e = self.route(t, 0, avoid_lit=t in no_lit)
+            routes_used.add(r)
+            return e
+
+        def operand():
+            """-> expression (a stored string or a freshly built one)"""
+            names = [v for v in live]
+            if names and self.chance(55):
+                v = self.pick(names)
+                return ("var", v)
+            return make(content())
+
+        for _ in range(self.i(6, 16)):
+            c = self.i(0, 19)
+            if c < 5:
+                v = "s%d" % counter[0]
+                counter[0] += 1
+                t = content()
+                e = make(t)
+                if self.chance(20):
+                    body.append(("let", v, ("prop", ("call", ("var", "Box"), [e]), "v")))
+                else:
+                    body.append(("let", v, e))
+                live[v] = t
+            elif c < 7 and live:
+                v = self.pick(sorted(live))
+                body.append(("expr", ("assign", ("var", v), ("nil",))))
+                del live[v]
+            elif c < 9:
+                # garbage: strings equal to pool contents (and others) created and dropped at once
+                t = content()
+                loop_body = [("let", "g", make(t))]
+                if self.chance(50):
+                    loop_body.append(("let", "h", ("bin", "+", ("str", "g"), ("call", ("prop", ("var", "i"), "str"), []))))
+                if self.chance(30):
+                    loop_body.append(("expr", ("assign", ("var", "n"), ("bin", "+", ("var", "n"),
+                                                                    ("tern", ("bin", "==", ("var", "g"), make(t)), ("num", 1.0), ("num", 0.0))))))
+                body.append(("for", "i", ("call", ("prop", ("num", float(self.pick([1, 3, 20, 60]))), "times"), []), loop_body))
+                if self.chance(40):
+                    body.append(("print", ("var", "n")))
+            elif c < 11:
+                body.append(("expr", ("assign", ("index", ("var", "m"), operand()), ("num", float(counter[0])))))
+                counter[0] += 1
+            elif c < 12:
+                body.append(("expr", ("call", ("prop", ("var", "held"), "push"), [operand()])))
+            elif c < 13:
+                body.append(self.wrap(("call", ("prop", ("var", "m"), "remove"), [operand()])))
+            else:
+                x, y = operand(), operand()
+                oc = self.i(0, 11)
+                if oc < 3:
+                    body.append(self.wrap(("bin", "==", x, y)))
+                elif oc < 4:
+                    body.append(self.wrap(("bin", "!=", x, y)))
+                elif oc < 5:
+                    body.append(self.wrap(("bin", self.pick(["<=", ">=", "<", ">"]), x, y)))
+                elif oc < 7:
+                    body.append(self.wrap(("index", ("var", "m"), y)))
+                elif oc < 8:
+                    body.append(self.wrap(("call", ("prop", ("var", "m"), self.pick(["has", "get"])), [y])))
+                elif oc < 9:
+                    body.append(self.wrap(("call", ("prop", ("var", "held"), self.pick(["has", "index"])), [y])))
+                elif oc < 10:
+                    body.append(self.wrap(("call", ("prop", ("tuple", [x, ("num", 1.0)]), self.pick(["has", "index"])), [y])))
+                elif oc < 11:
+                    body.append(("print", ("call", ("prop", ("var", "m"), "len"), [])))
+                else:
+                    body.append(self.wrap(("call", ("prop", x, "has"), [y])))
+        body.append(("print", ("call", ("prop", ("var", "m"), "len"), [])))
+        body.append(("print", ("var", "held")))
+        if in_fn:
+            main = pre + [("fn", "main", [], body), ("expr", ("call", ("var", "main"), []))]
+        else:
+            main = pre + body
+        files = {}
+        if self.with_module:
+            mod = [("let", "hidden", ("str", "private"))]
+            for (name, kind, e) in self.mod_exports:
+                if kind == "let":
+                    mod.append(("export", ("let", name, e)))
+                else:
+                    mod.append(("export", ("fn", name, [], [("return", e)])))
+            files["/v/strs.lay"] = mod
+        return {"files": files, "main": main, "pool": pool, "routes": sorted(routes_used)}
+
+
+def strings_scenario(cfg=None):
+    @st.composite
+    def strat(draw):
+        return GS(draw, cfg).scenario()
+    return strat()
+
+
+def strings_program(cfg=None):
+    @st.composite
+    def strat(draw):
+        return GS(draw, cfg).scenario(allow_module=False)["main"]
+    return strat()
